@@ -19,6 +19,8 @@ EXPLANATION = (
     "Together these give 'each run equals the run on a freshly loaded CID' for the shipped checks."
     " Added in rounds 6 and 7: (O5.4c) cleanup() of a check leaves the bookkeeping alone: a late close() of an"
     " abandoned validator must not wipe the state of the run in progress."
+    " Added in round 10: map() is modelled as lazy: a reset loop written as an unconsumed map() resets"
+    " nothing."
 )
 ASSUMPTIONS = ["third-party plugin checks implement reset() completely (the shipped example is checked)"]
 
